@@ -2222,7 +2222,7 @@ mod v_wire_roundtrip {
 
     /// IPv6 address of a concrete shape with symbolic content.
     /// 0 unspecified; 1 fe80::ff:fe00:XXXX (ll = Short(XXXX)); 2 same IID, no link-layer address; 3 fe80::EUI-64 of ll = Extended;
-    /// 4 fe80::<8 symbolic bytes>, no ll; 5 global 20XX:..; 6 ff02::00XX; 7 ffXX::00XX:XXXX; 8 ffXX::00XX:XXXX:XXXX; 9 ffXX:<14 symbolic bytes>
+    /// 4 fe80::<8 symbolic bytes>, no ll; 5 global 20XX:..; 6 ff02::00XX; 7 ffXX::00XX:XXXX; 8 ffXX::00XX:XXXX:XXXX; 9 ffXX:<14 symbolic bytes>; 10 fe80::ff:fe00:XXXX with ll = Extended(02:00:00:ff:fe:00:XX:XX)
     macro_rules! iphc_addr {
         ($kind:expr) => {{
             let r: [u8; 16] = kani::any();
@@ -2248,6 +2248,12 @@ mod v_wire_roundtrip {
                     // every address of the 48-bit form that is not of the 32-bit form (octets 11, 12 not both zero)
                     kani::assume(r[11] != 0 || r[12] != 0);
                     ([0xff, r[1], 0, 0, 0, 0, 0, 0, 0, 0, 0, r[11], r[12], r[13], r[14], r[15]], None)
+                }
+                10 => {
+                    // the corner shape 3 leaves out: an extended link-layer address whose EUI-64 IS the short-address
+                    // IID 0000:00ff:fe00:XXXX - both "elide, derive from the link-layer address" and "16 bits in-line"
+                    // would describe it, emit and buffer_len must pick the same one
+                    ([0xfe, 0x80, 0, 0, 0, 0, 0, 0, 0, 0, 0, 0xff, 0xfe, 0, r[14], r[15]], Some(Ieee802154Address::Extended([2, 0, 0, 0xff, 0xfe, 0, r[14], r[15]])))
                 }
                 _ => ([0xff, r[1], 0x80 | r[2], r[3], r[4], r[5], r[6], r[7], r[8], r[9], r[10], r[11], r[12], r[13], r[14], r[15]], None),
             };
@@ -2339,6 +2345,12 @@ mod v_wire_roundtrip {
     #[kani::proof]
     pub(crate) fn rt_iphc_global_mcast48() {
         iphc_rt!(src = 5, dst = 8, nh_inline = false, hl_inline = false, n = 24);
+    }
+
+    // @harness props=C06 cfg=KW tier=q to=600 mem=8 unwind=20 opts=nomem covers=1 funcs=wire::sixlowpan::iphc::Repr::emit;wire::sixlowpan::iphc::Repr::parse bounds=src_and_dst_fe80::ff:fe00:XXXX_with_an_extended_link-layer_address_whose_EUI-64_is_that_short-form_IID_(emit_and_buffer_len_must_agree_on_the_form)
+    #[kani::proof]
+    pub(crate) fn rt_iphc_eui64_is_shortform() {
+        iphc_rt!(src = 10, dst = 10, nh_inline = false, hl_inline = false, n = 6);
     }
 
     // regression: a multicast destination that fits none of the compressed forms is written in full (16 bytes) but used
